@@ -1,0 +1,14 @@
+// Copyright 2018 The Go Authors. All rights reserved.
+// Use of this source code is governed by a BSD-style
+// license that can be found in the LICENSE file.
+
+//go:build verif
+
+package modfile
+
+// VerifParseSyntax exposes the syntax-only parser (no directive interpretation)
+// to verification harnesses built with the "verif" tag, so that the syntax
+// layer can be exercised on inputs the directive layer rejects.
+func VerifParseSyntax(file string, data []byte) (*FileSyntax, error) {
+	return parse(file, data)
+}
